@@ -939,7 +939,7 @@ def run(ctx):
     q = ctx.quick
     alpha3 = ctx.pick(ALPHA3_Q, ALPHA3_T)
     alpha4 = ctx.pick(ALPHA4_Q, ALPHA4_T)
-    parse_len = ctx.pick(6, 7)
+    parse_len = ctx.pick(5, 7)
     wire_len = ctx.pick(5, 6)
     graphs = ctx.pick([(5, (0, 0xFC, 0x3FF4))], [(6, (0, 0xFC, 0x3FF4))])
     cbases = [0, 12, 0x3FFC, 0x3FFD, 0x3FFE, 0x3FFF, 0x4000, 0x4001]
